@@ -2294,10 +2294,11 @@ class PyCdlib:
                 while offset < len(data):
                     current_extent = (abs_file_ident_extent * self.logical_block_size + offset) // self.logical_block_size
 
-                    file_ident, bytes_forward = udfmod.parse_file_ident(data[offset:],
+                    file_ident, bytes_forward = udfmod.parse_file_ident(data,
                                                                         current_extent,
                                                                         part_start,
-                                                                        udf_file_entry)
+                                                                        udf_file_entry,
+                                                                        offset)
                     offset += bytes_forward
 
                     if file_ident.is_parent():
